@@ -105,9 +105,46 @@ def dofloc_values(basis, p):
     return np.array([p_eval(p, [X[i, j] for i in range(X.shape[0])]) for j in range(X.shape[1])], dtype=X.dtype if X.dtype == object else float)
 
 
-def residual_checks(h, tag, A, b, xstar, D, N, approx=None):
+def _num_bound(h, r, cvars):
+    """sup over c in [-1,1]^n of |r(c)| for a residual that is linear in the symbols c with coefficients that are constants up to
+    root atoms of constants: numeric evaluation (float64) of the coefficients."""
+    from engine import zeval
+    r = tosym(r)
+    if r.c is not None:
+        return abs(float(r.c))
+    env = {}
+    for (rv, s_, k_) in h.ex.rootvars:
+        env[rv.decl().name()] = np.array([abs(float(np.asarray(zeval.eval_float(s_.a, env)).ravel()[0])) ** (1.0 / k_)])
+    names = [tosym(c).a.decl().name() for c in cvars]
+    base = dict(env)
+    for n_ in names:
+        base[n_] = np.array([0.0])
+    r0 = float(np.asarray(zeval.eval_float(r.a, base)).ravel()[0])
+    tot = abs(r0)
+    for n_ in names:
+        e2 = dict(base)
+        e2[n_] = np.array([1.0])
+        tot += abs(float(np.asarray(zeval.eval_float(r.a, e2)).ravel()[0]) - r0)
+    return tot
+
+
+def residual_checks(h, tag, A, b, xstar, D, N, approx=None, numeric=None):
     from skfem.utils import condense, enforce
+    if numeric is not None and h.sym_mode:
+        # numeric geometry with irrational normals: residuals are evaluated in float64 (concrete, tolerance 1e-9 over the box)
+        h0 = h
+
+        class _H:
+            sym_mode = True
+
+            def zero(self, key, val, **kw):
+                bd = _num_bound(h0, val, numeric)
+                return h0.concrete(key, bd <= 1e-10, 'numeric bound %.3e (tolerance 1e-10)' % bd)
+        t_ = h0.sym('t', ())
+        h0.zero('trivial', t_ - t_)
+        h = _H()
     D = np.asarray(D)
+    before = np.array(A @ xstar, copy=True)
     Ac, bc, xx, I = condense(A, b, x=xstar, D=D)
     I = np.asarray(I)
     res = (Ac @ xstar[I]) - bc
@@ -117,6 +154,9 @@ def residual_checks(h, tag, A, b, xstar, D, N, approx=None):
     res2 = (Ae @ xstar) - be
     for i in range(N):
         h.zero('%s: enforced equation %d holds at the exact solution' % (tag, i), np.asarray(res2)[i], approx=approx)
+    after = A @ xstar
+    for i in range(N):
+        h.zero('%s: the assembled system is unchanged by constraining it (row %d of A x)' % (tag, i), np.asarray(after)[i] - np.asarray(before)[i], approx=approx)
     # history: the SAME assembled system constrained a second time on a smaller set (the first round must not have touched it)
     if len(D) > 1:
         D2 = D[:1]
@@ -148,7 +188,7 @@ def poisson_config(h, mesh, spec, p, free=None, pt=None, reaction=False, dirichl
         u = poly(h, 'c', d, p)
         approx = None
         if default_rule and h.sym_mode:
-            approx = ([h.And(cv >= -1, cv <= 1) for cv in u.values()], 1e-9)
+            approx = ([h.And(cv >= -1, cv <= 1) for cv in u.values()], 1e-11)
         kap = (h.frac(13, 8) if default_rule else h.sym('kappa', (), nominal=1.625)) if reaction else 0
         lap = {}
         for i in range(d):
@@ -176,7 +216,8 @@ def poisson_config(h, mesh, spec, p, free=None, pt=None, reaction=False, dirichl
         h.sample(dict(mesh=mesh, element=spec, degree=p, reaction=reaction, dirichlet_facets=[int(x) for x in Fd], N=N))
         xstar = dofloc_values(basis, u)
         D = basis.get_dofs(Fd.astype(np.int32)).flatten()
-        residual_checks(h, 'poisson', A, b, xstar, D, N, approx=approx)
+        residual_checks(h, 'poisson', A, b, xstar, D, N, approx=approx,
+                        numeric=(list(u.values()) if (default_rule and dirichlet is not None) else None))
         if h.sym_mode and len(D) < N and (p >= 2 or reaction) and not default_rule:
             # canary: a wrong load (sign of the Laplacian) must be refuted
             bw = S.LinearForm(lambda v, w: -p_eval(f, w.x) * v, dtype=dt).assemble(basis)
@@ -273,7 +314,8 @@ def build_configs(tier, seed):
         add('poisson/tri2heron/ElementTriP2/dirichlet=%s' % ''.join(map(str, sp)), poisson_config, mesh='tri2heron', spec='ElementTriP2', p=2,
             free='none', dirichlet=sp, reaction=True)
     # the library's default quadrature on numeric geometry (tolerance 1e-9 over the coefficient box)
-    add('default-rule/tet2/ElementTetP2', poisson_config, mesh='tet2', spec='ElementTetP2', p=2, free='none', reaction=True, default_rule=True, timeout=1500)
+    add('default-rule/tet2/ElementTetP2/mixed', poisson_config, mesh='tet2', spec='ElementTetP2', p=2, free='none', reaction=True, default_rule=True,
+        dirichlet=[0, 1], timeout=1500)
     add('default-rule/tri2/ElementTriP2', poisson_config, mesh='tri2', spec='ElementTriP2', p=2, free='none', reaction=True, default_rule=True)
     add('default-rule/quad2mix/ElementQuad1/mixed', poisson_config, mesh='quad2mix', spec='ElementQuad1', p=1, free='none', dirichlet=[0, 1],
         default_rule=True, timeout=1500)
